@@ -386,6 +386,9 @@ class Initiator(DataExchangeProtocol):
         return bytearray(frame)
 
     def decode_frame(self, frame):
+        if len(frame) < (2 if self.target.brty == '106A' else 1):
+            error = "NFC-DEP frame is shorter than its header"
+            raise nfc.clf.TransmissionError(error)
         if self.target.brty == '106A' and frame.pop(0) != 0xF0:
             error = "first NFC-DEP frame byte must be F0h for 106A"
             raise nfc.clf.ProtocolError(error)
@@ -657,6 +660,9 @@ class Target(DataExchangeProtocol):
         return bytearray(frame)
 
     def decode_frame(self, frame):
+        if len(frame) < (2 if self.target.brty == '106A' else 1):
+            error = "NFC-DEP frame is shorter than its header"
+            raise nfc.clf.TransmissionError(error)
         if self.target.brty == '106A' and frame.pop(0) != 0xF0:
             error = "first NFC-DEP frame byte must be F0h for 106A"
             raise nfc.clf.ProtocolError(error)
@@ -701,6 +707,8 @@ class ATR_REQ(ATR_REQ_RES):
     @staticmethod
     def decode(data):
         if data.startswith(ATR_REQ.PDU_CODE):
+            if len(data) < 16:
+                raise nfc.clf.ProtocolError("invalid format of the ATR-REQ")
             nfcid3, (did, bs, br, pp) = data[2:12], data[12:16]
             gb = data[16:] if pp & 0x02 else bytearray()
             return ATR_REQ(nfcid3, did, bs, br, pp, gb)
@@ -728,6 +736,8 @@ class ATR_RES(ATR_REQ_RES):
     @staticmethod
     def decode(data):
         if data.startswith(ATR_RES.PDU_CODE):
+            if len(data) < 17:
+                raise nfc.clf.ProtocolError("invalid format of the ATR-RES")
             nfcid3, (did, bs, br, to, pp) = data[2:12], data[12:17]
             gb = data[17:] if pp & 0x02 else bytearray()
             return ATR_RES(nfcid3, did, bs, br, to, pp, gb)
